@@ -256,6 +256,9 @@ class ModelCache:
         self.culled_expired += len(victims)
         return ('ok', fp(len(victims)))
 
+    # without size pressure an explicit cull() is expire(); under pressure the caller validates the evictions
+    op_cull = op_expire
+
     def op_len(self, op, now):
         return ('ok', fp(len(self.rows)))
 
